@@ -886,3 +886,60 @@ where
         FEither::Right((_, read_fut)) => read_fut.await,
     }
 }
+
+/// Verification hooks: access to internal components for the model checking harness.
+#[cfg(swimos_verif)]
+pub mod verif_hooks {
+    pub use super::envelopes::ReconEncoder;
+    use super::{interpret_envelope, peel_envelope_header_str, Either, Uuid};
+    use swimos_messages::protocol::{Notification, Operation};
+
+    /// The interpretation of a text frame read from a socket, in owned form.
+    #[derive(Debug, Clone, PartialEq, Eq)]
+    pub struct Interpreted {
+        pub is_request: bool,
+        pub kind: &'static str,
+        pub node: String,
+        pub lane: String,
+        pub body: Option<String>,
+    }
+
+    /// Run a text frame through the same two steps as the incoming task of the remote
+    /// (`peel_envelope_header_str` followed by `interpret_envelope`).
+    pub fn interpret_frame(id: Uuid, frame: &str) -> Result<Option<Interpreted>, String> {
+        let envelope = peel_envelope_header_str(frame).map_err(|e| e.to_string())?;
+        Ok(match interpret_envelope(id, envelope) {
+            Some(Either::Left(request)) => {
+                let (kind, body) = match request.envelope {
+                    Operation::Link => ("link", None),
+                    Operation::Sync => ("sync", None),
+                    Operation::Unlink => ("unlink", None),
+                    Operation::Command(body) => ("command", Some(body.to_string())),
+                };
+                Some(Interpreted {
+                    is_request: true,
+                    kind,
+                    node: request.path.node.to_string(),
+                    lane: request.path.lane.to_string(),
+                    body,
+                })
+            }
+            Some(Either::Right(response)) => {
+                let (kind, body) = match response.envelope {
+                    Notification::Linked => ("linked", None),
+                    Notification::Synced => ("synced", None),
+                    Notification::Unlinked(body) => ("unlinked", body.map(|b| b.to_string())),
+                    Notification::Event(body) => ("event", Some(body.to_string())),
+                };
+                Some(Interpreted {
+                    is_request: false,
+                    kind,
+                    node: response.path.node.to_string(),
+                    lane: response.path.lane.to_string(),
+                    body,
+                })
+            }
+            None => None,
+        })
+    }
+}
